@@ -39,6 +39,36 @@ func runReplay(path string) int {
 		fmt.Printf("not reproduced: %s %q does not fail on the current tree\n", rp.Inv, rp.Sig)
 		return 0
 	}
+	if head.Engine == "ordersim" {
+		bin, err := buildFrontw(true)
+		if err != nil {
+			infra("%v", err)
+		}
+		pool := &Pool{Bin: bin, Env: []string{"DDPPATH=" + filepath.Join(repoRoot(), "lib/stdlib")}, Workers: 1, WorkRoot: workRoot, Stage1: 120 * time.Second, ASLimit: 8192}
+		if replayOrderStored(pool, path) {
+			fmt.Printf("VIOLATION property=%s replay=%s\n  reproduced: %s %q\n", head.Property, path, head.Inv, head.Sig)
+			return 1
+		}
+		fmt.Printf("not reproduced: %s %q does not fail on the current tree\n", head.Inv, head.Sig)
+		return 0
+	}
+	if head.Engine == "ordersim-b" {
+		if ok, _ := replayB(path); ok {
+			fmt.Printf("VIOLATION property=%s replay=%s\n  reproduced: %s %q\n", head.Property, path, head.Inv, head.Sig)
+			return 1
+		}
+		fmt.Printf("not reproduced: %s %q does not fail on the current tree\n", head.Inv, head.Sig)
+		return 0
+	}
+	if head.Engine == "heapsim" {
+		tc := buildToolchain()
+		if replayHeapStored(tc, path) {
+			fmt.Printf("VIOLATION property=%s replay=%s\n  reproduced: %s %q\n", head.Property, path, head.Inv, head.Sig)
+			return 1
+		}
+		fmt.Printf("not reproduced: %s %q does not fail on the current tree\n", head.Inv, head.Sig)
+		return 0
+	}
 	infra("unknown engine %q in replay file", head.Engine)
 	return 2
 }
@@ -48,6 +78,3 @@ func runSelftest(args []string) int {
 	return 2
 }
 
-func buildOverlay() (string, error) {
-	return "", fmt.Errorf("overlay not built yet")
-}
